@@ -114,7 +114,8 @@ def get_notes(key="C"):
     ['C', 'D', 'Eb', 'F', 'G', 'Ab', 'Bb']
     """
     if key in _key_cache:
-        return _key_cache[key]
+        # hand out a copy: the caller owns the result, the cache row stays private
+        return list(_key_cache[key])
     if not is_valid_key(key):
         raise NoteFormatError("unrecognized format for key '%s'" % key)
     result = []
@@ -137,7 +138,7 @@ def get_notes(key="C"):
 
     # Save result to cache
     _key_cache[key] = result
-    return result
+    return list(result)
 
 
 def relative_major(key):
